@@ -80,8 +80,8 @@ def handler_name(h):
 
 
 def type_name(t):
-    return {dict: 'dict', list: 'list', tuple: 'tuple', int: 'int', str: 'str', type(None): 'none',
-            A: 'A'}.get(t, 'other:' + t.__name__)
+    return {dict: 'dict', list: 'list', tuple: 'tuple', int: 'int', str: 'str', type(None): 'none', bool: 'bool',
+            A: 'A', Hostile: 'hostile', OneShotGen: 'gen'}.get(t, 'other:' + t.__name__)
 
 
 def apply_registration(r):
@@ -89,24 +89,106 @@ def apply_registration(r):
 
 
 # ---- values ---------------------------------------------------------------------------
-def build_value(v):
+class Hostile:
+    """an object whose __eq__ is hostile: odd n: equal to everything; even n: raises on any foreign
+    operand.  The model knows it by identity (n) only."""
+
+    def __init__(self, n):
+        self.n = n
+
+    def __eq__(self, other):
+        if self.n % 2:
+            return True
+        if type(other) is not Hostile:
+            raise TypeError('Hostile(%d) cannot be compared with %s' % (self.n, type(other).__name__))
+        return self is other
+
+    def __ne__(self, other):
+        return not self.__eq__(other)
+
+    def __hash__(self):
+        return 1000 + self.n
+
+    def __repr__(self):
+        return 'Hostile(%d)' % self.n
+
+
+class OneShotGen:
+    """a one-shot iterator that counts pulls; a pull after it reported exhaustion is a fault"""
+
+    def __init__(self, items, model):
+        self._items, self._model, self._i, self.pulls, self._ended = items, model, 0, 0, False
+
+    def __iter__(self):
+        return self
+
+    def __next__(self):
+        self.pulls += 1
+        if self._i < len(self._items):
+            self._i += 1
+            return self._items[self._i - 1]
+        if self._ended:
+            raise RuntimeError('one-shot iterator pulled after exhaustion')
+        self._ended = True
+        raise StopIteration
+
+    def __repr__(self):
+        return 'OneShotGen(%d items)' % len(self._items)
+
+
+class SubList(list):
+    """a list subclass overriding item access and iteration (same meaning)"""
+
+    def __getitem__(self, i):
+        return list.__getitem__(self, i)
+
+    def __iter__(self):
+        return iter([list.__getitem__(self, i) for i in range(len(self))])
+
+
+def _sub_dict(pairs):
+    """an OrderedDict in the given order whose underlying raw dict order differs"""
+    from collections import OrderedDict
+    pairs = list(pairs)
+    od = OrderedDict(pairs[1:] + pairs[:1])
+    if len(pairs) > 1:
+        od.move_to_end(pairs[0][0], last=False)
+    return od
+
+
+# spellings of the builtin containers of a target / caller scope: the law does not distinguish them
+CLASSES = {
+    'plain': dict(list=list, tuple=tuple, dict=lambda pairs: dict(pairs)),
+    'falsy': dict(list=codec._falsy(list), tuple=codec._falsy(tuple), dict=lambda pairs, c=codec._falsy(dict): c(pairs)),
+    'sub': dict(list=SubList, tuple=tuple, dict=_sub_dict),
+}
+
+
+def build_value(v, spelling='plain'):
     k = v['k']
+    cls = CLASSES[spelling]
     if k == 'int':
         return v['i']
     if k == 'str':
         return v['s']
     if k == 'none':
         return None
+    if k == 'bool':
+        return v['b']
+    if k == 'hostile':
+        return Hostile(v['n'])
+    if k == 'gen':
+        return OneShotGen([build_value(x, spelling) for x in v['v']], v)
     if k == 'list':
-        return [build_value(x) for x in v['v']]
+        return cls['list']([build_value(x, spelling) for x in v['v']])
     if k == 'tuple':
-        return tuple(build_value(x) for x in v['v'])
+        return cls['tuple']([build_value(x, spelling) for x in v['v']])
     if k == 'dict':
-        return {build_value(a): build_value(b) for a, b in v['v']}
+        return cls['dict']([(build_value(a, spelling), build_value(b, spelling)) for a, b in v['v']])
     if k == 'obj':
         o = A()
         for a, b in v['v']:
-            setattr(o, build_value(a), build_value(b))
+            setattr(o, build_value(a, spelling), build_value(b, spelling))
         return o
     raise ValueError('unknown value %r' % (v,))
 
@@ -117,16 +199,20 @@ def project_value(o, depth=0):
     if o is None:
         return {'k': 'none'}
     if type(o) is bool:
-        return {'k': 'opaque', 's': 'bool'}
+        return {'k': 'bool', 'b': o}
     if type(o) is int:
         return {'k': 'int', 'i': o} if abs(o) < 2 ** 30 else {'k': 'opaque', 's': 'bigint'}
     if type(o) is str:
         return {'k': 'str', 's': o}
-    if type(o) is list:
-        return {'k': 'list', 'v': [project_value(x, depth + 1) for x in o]}
-    if type(o) is tuple:
-        return {'k': 'tuple', 'v': [project_value(x, depth + 1) for x in o]}
-    if type(o) is dict:
+    if isinstance(o, Hostile):
+        return {'k': 'hostile', 'n': o.n}
+    if isinstance(o, OneShotGen):
+        return o._model
+    if isinstance(o, list):
+        return {'k': 'list', 'v': [project_value(x, depth + 1) for x in list.__iter__(o)]}
+    if isinstance(o, tuple):
+        return {'k': 'tuple', 'v': [project_value(x, depth + 1) for x in tuple.__iter__(o)]}
+    if isinstance(o, dict):
         return {'k': 'dict', 'v': [[project_value(a, depth + 1), project_value(b, depth + 1)] for a, b in o.items()]}
     if type(o) is A:
         return {'k': 'obj', 'cls': 'A', 'v': [[project_value(a, depth + 1), project_value(b, depth + 1)]
@@ -145,11 +231,12 @@ class Ctx:
         self.glommer = glom.Glommer()      # the ONE shared Glommer instance of via="glommer" calls
 
     def do_glom(self, bc):
+        target = bc.fresh_target()
         if bc.via == 'glommer':
-            return self.glommer.glom(bc.target, bc.spec)
+            return self.glommer.glom(target, bc.spec)
         if bc.via == 'spec':           # through the ONE Spec object of this sid
-            return bc.specobj.glom(bc.target, scope=bc.scope)
-        return glom.glom(bc.target, bc.spec, scope=bc.scope)
+            return bc.specobj.glom(target, scope=bc.scope)
+        return glom.glom(target, bc.spec, scope=bc.scope)
 
     def start_call(self):
         self.local.obs = []
@@ -297,9 +384,16 @@ class VGate:
 
 
 class BuiltCall:
+    def fresh_target(self):
+        """the target of the next evaluation: one-shot iterators are made anew for every call"""
+        if self.ast['t'].get('k') == 'gen':
+            return build_value(self.ast['t'], self.spelling)
+        return self.target
+
     def __init__(self, target, spec, scope, ast, specobj=None):
         self.target, self.spec, self.scope, self.ast, self.specobj = target, spec, scope, ast, specobj
         self.via = ast.get('via', 'glom')
+        self.spelling = ast.get('spelling', 'plain')
         if self.via == 'glommer' and scope:
             raise ValueError('calls through the Glommer take no caller scope')
 
@@ -322,7 +416,8 @@ class Builder:
         if c.get('via') == 'spec' and sid not in self.specobjs:
             self.specobjs[sid] = Spec(self.specs[sid])
             register_baseline(self.specobjs[sid])
-        return BuiltCall(build_value(c['t']), self.specs[sid], {k: build_value(v) for k, v in c['sc']}, c,
+        sp = c.get('spelling', 'plain')
+        return BuiltCall(build_value(c['t'], sp), self.specs[sid], {k: build_value(v, sp) for k, v in c['sc']}, c,
                          self.specobjs.get(sid) if c.get('via') == 'spec' else None)
 
     def spec(self, n, at):
@@ -454,7 +549,7 @@ def _attr_items(o):
 
 
 def _is_leaf(o):
-    return (o is None or isinstance(o, (int, str, float, bool, bytes, set, frozenset, Ctx))
+    return (o is None or isinstance(o, (int, str, float, bool, bytes, set, frozenset, Ctx, OneShotGen))
             or (callable(o) and not hasattr(o, 'glomit') and not isinstance(o, (OpGate, VGate))))
 
 
@@ -506,15 +601,17 @@ def snapshot(o, seen=None, depth=0):
     if depth > 40:
         return ('deep', id(o))
     t = type(o)
-    if t in (list, tuple):
-        return (t.__name__, id(o), tuple(snapshot(x, seen, depth + 1) for x in o))
-    if t is dict:
-        return ('dict', id(o), tuple((snapshot(k, seen, depth + 1), snapshot(v, seen, depth + 1)) for k, v in o.items()))
+    if isinstance(o, (list, tuple)):      # (subclasses too: raw contents, not what overridden methods say)
+        raw = list.__iter__(o) if isinstance(o, list) else tuple.__iter__(o)
+        return (t.__name__, id(o), tuple(snapshot(x, seen, depth + 1) for x in raw))
+    if isinstance(o, dict):
+        return (t.__name__, id(o), tuple((snapshot(k, seen, depth + 1), snapshot(v, seen, depth + 1)) for k, v in dict.items(o)),
+                tuple(snapshot(k, {}, depth + 1) for k in o.keys()) if t is not dict else ())
     if t in (set, frozenset):
         return (t.__name__, id(o), tuple(sorted(repr(x) for x in o)))
     if callable(o) and not hasattr(o, 'glomit') and not isinstance(o, (OpGate, VGate)):
         return ('callable', id(o))
-    if isinstance(o, Ctx):
+    if isinstance(o, (Ctx, OneShotGen)):
         return ('ctx', id(o))
     # spec objects / user objects: attribute graph (__dict__ and __slots__)
     attrs = [(k, v) for k, v in _attr_items(o) if not _late_private(o, str(k))]
@@ -670,19 +767,20 @@ def pristine_problem():
     return None
 
 
-def install_logs(log):
-    """replace glom's cache dicts (objects held in glom's own attributes) by logging ones"""
+def install_logs(log, type_cache=True):
+    """replace glom's cache dicts (objects held in glom's own attributes) by logging ones
+    (type_cache=False: the session uses container subclasses the model does not name)"""
     if _path_cache() is not None:
         Path._CACHE = {True: PathLogDict(log, True), False: PathLogDict(log, False)}
     reg = default_registry()
-    if reg is not None:
+    if reg is not None and type_cache:
         reg._type_cache = TypeLogDict(log)
 
 
 def register_logged(r, log=None):
     apply_registration(r)
     reg = default_registry()
-    if reg is not None and log is not None and not isinstance(reg._type_cache, TypeLogDict):
+    if reg is not None and log is not None and getattr(log, 'type_cache', True) and not isinstance(reg._type_cache, TypeLogDict):
         # register() installed a new memo dict: keep observing it (contents preserved, unlogged)
         new = TypeLogDict(log)
         for k, v in dict.items(reg._type_cache):
